@@ -139,10 +139,18 @@ class C13Executor(SymListMixin, ET.ETreeMixin, Executor):
             return None
         k = z3.Int(fresh_name("qk"))
         e = s.elem(k)
+        if isinstance(e, VExt) and e.sort == "PyVal":
+            e = self.truth(st, e)
         if not isinstance(e, VBool):
             return None
         rng = z3.And(k >= 0, k < s.length)
         return VBool(z3.Exists([k], z3.And(rng, e.t)) if is_any else z3.ForAll([k], z3.Implies(rng, e.t)))
+
+    def truth(self, st, v):
+        # an abstract cell value may be falsy (None, 0, False, '') -- independent of being an empty cell (0 is data, ' ' is not)
+        if isinstance(v, VExt) and v.sort == "PyVal":
+            return VBool(TRUTHY(v.t))
+        return super().truth(st, v)
 
     def b_any(self, st, args, kwargs, node):
         r = self._quant_bools(st, args[0], True) if len(args) == 1 and self.concrete_items(st, args[0]) is None else None
@@ -775,6 +783,7 @@ def value_contracts(reg):
 
 # ============================================================ xlsx trimming (round 7) ==
 # `_read_sheet_data` cuts the sheet to its used range with these helpers: the SHAPE of every xlsx table depends on them.
+TRUTHY = z3.Function("py_truth", PYVAL, B)                  # bool(v) of an abstract cell value (unconstrained: all four combinations with cell_non_empty exist)
 NONEMPTY = z3.Function("cell_non_empty", PYVAL, B)          # spec predicate on an abstract cell value: not None and not a blank string
 
 
@@ -858,9 +867,15 @@ def xlsx_trim_contracts(reg):
                 return z3.BoolVal(False)
             k = z3.Int("k!tail")
             return z3.ForAll([k], z3.Implies(z3.And(k >= t.length - lc.i, k < t.length), z3.Not(row_nonempty(t.elem(k)))))
+        # the invariant belongs to a loop that walks the row indices downwards (`for .. in range(.., .., -1)`); any other loop shape gets
+        # none: the postcondition is then undecided on the symbolic sheet and the native replay decides (never a false alarm)
+        fors = sorted([n for n in ast.walk(fnode) if isinstance(n, (ast.For, ast.While))], key=lambda n: (n.lineno, n.col_offset))
+        down = len(fors) == 1 and isinstance(fors[0], ast.For) and isinstance(fors[0].iter, ast.Call) and isinstance(fors[0].iter.func, ast.Name) \
+            and fors[0].iter.func.id == "range" and len(fors[0].iter.args) == 3 and isinstance(fors[0].iter.args[2], ast.UnaryOp) \
+            and isinstance(fors[0].iter.args[2].op, ast.USub) and isinstance(fors[0].iter.args[2].operand, ast.Constant) and fors[0].iter.args[2].operand.value == 1
         out.append(FnContract(target=f"{XLSX}::{fq}", params=[(pname, p_grid())],
                               ensures=[("last-row-with-a-non-empty-cell-zero-when-none", post_last)], raises=[],
-                              loops={0: LoopSpec(inv=inv_tail, label="rows-from-the-end")},
+                              loops={0: LoopSpec(inv=inv_tail, label="rows-from-the-end")} if down else {},
                               note="symbolic sheet: every number of rows, every row length; every row after the result is empty, the result's row is not"))
     return out
 
@@ -1741,6 +1756,8 @@ ASSUMED_MODELS = ["xml.etree.ElementTree.Element (contracts/etree_model.py): tag
                   "evaluated by the real library; bisect_left/right on an ascending list = partition point",
                   "text renderers _format_sheet_as_text / _format_table_as_text, ods _extract_annotations / _extract_images (not part of the grid)"]
 ASSUMPTIONS = ["PY-COMP: a comprehension / generator expression with a total effect-free element over a sequence is the element-wise image",
+               "PY-ANY: any(it) / all(it) over a sequence of bools = exists / for all elements; range(a, b, -1) = a, a-1, .., b+1; bool(v) of an abstract cell value "
+               "is an unconstrained predicate (independent of the cell being empty: 0 / False are data, ' ' is not)",
                "PY-MAX: max(it, default=d) is d for an empty iterable, else an upper bound that is attained",
                "PY-FLOAT-REAL (finite floats as reals; float('<literal>') exact)", "TREE-FINITE",
                "ISO text = ISO 8601 / RFC 3339 profile (date and time separated by 'T' or a space)",
@@ -1753,7 +1770,8 @@ ASSUMPTIONS = ["PY-COMP: a comprehension / generator expression with a total eff
 BOUNDED = ["walkers docx _extract_tables_from_context, odt _extract_tables, odp _extract_table, pptx _extract_table_from_graphic_frame, html _process_node(+_extract_table,_find_nodes), "
            "epub table state machine: every document of the grammar in contracts/C13_bounded.py (1..2 tables, <= 2 x 2 ragged, cells with 0..2 paragraphs, one nested table of depth 1, "
            "header-rows wrapper), paragraph texts symbolic",
-           "sheet builders xlsx _read_content_from_workbook(+_read_sheet_data,_is_table_name_row), xls _read_content + XlsSheet.get_table, ods _extract_sheet: sheets of 1..3 rows x 1..2 columns "
+           "sheet builders xlsx _read_content_from_workbook(+_read_sheet_data,_find_last_data_column,_is_table_name_row; its callees _is_cell_non_empty, _is_meaningful_value, "
+           "_find_last_data_row are ALSO under a discharged symbolic contract since round 7), xls _read_content + XlsSheet.get_table, ods _extract_sheet: sheets of 1..3 rows x 1..2 columns "
            "over the cell kinds empty/text/int/float/bool/date, duplicate and empty first-row names; values symbolic (xls/xlsx first-row names and ods typed literals concrete)",
            "iterate_tables of every content class: 0..3 stored tables on 0..3 units",
            "rtf _RtfParser._extract_tables (+ _extract_table_cells, _save_table, _strip_rtf_simple, _remove_ignorable_groups): concrete RTF sources -- rectangular tables "
